@@ -1,54 +1,343 @@
 package wsim
 
 import (
+	"encoding/binary"
 	"encoding/json"
 	"fmt"
+	"os"
+	"path/filepath"
+	"runtime"
+	"strconv"
+	"sync/atomic"
 	"testing"
+	"time"
 )
 
-func smokeScenario(seed uint64) *Scenario {
-	w := func(n int) []WOp {
-		var ops []WOp
-		for i := 0; i < n; i++ {
-			ops = append(ops, WOp{Kind: "msg", MT: 2, Pay: Payload{Len: 10 + i*1000, Seed: seed + uint64(i)}})
+// ---------------------------------------------------------------------------
+// Worker: one OS process = a sequence of runs for one property.
+// Controlled by environment variables (set by cmd/verifctl):
+//   WSIM_MODE     explore | replay | digest
+//   WSIM_PROP     property id
+//   WSIM_SEED     base seed (VERIF_SEED)
+//   WSIM_WORKER   worker index
+//   WSIM_SECONDS  wall-clock budget for explore
+//   WSIM_MAXRUNS  run cap
+//   WSIM_OUT      directory for report.json / digests.bin / replay files
+//   WSIM_TIER     quick | thorough
+//   WSIM_REPLAY   replay file (replay mode)
+//   WSIM_KNOWN    known_findings.json
+// ---------------------------------------------------------------------------
+
+type WorkerReport struct {
+	Prop        string            `json:"prop"`
+	Worker      int               `json:"worker"`
+	Race        bool              `json:"race"`
+	Runs        int               `json:"runs"`
+	Nontrivial  int               `json:"nontrivial"`
+	Obligations int               `json:"obligations"`
+	Steps       uint64            `json:"steps"`
+	ChoicePts   uint64            `json:"choice_points"`
+	SimNanos    int64             `json:"sim_nanos"`
+	WallS       float64           `json:"wall_s"`
+	Faults      map[string]uint64 `json:"faults"`
+	Probes      map[string]uint64 `json:"probes"`
+	Classes     map[string]int    `json:"classes"`
+	Reasons     map[string]int    `json:"reasons"`
+	Discarded   map[string]int    `json:"discarded"`
+	Samples     []json.RawMessage `json:"samples"`
+	Violations  []ViolationRep    `json:"violations"`
+	Known       map[string]string `json:"known"`
+	HarnessErr  []string          `json:"harness_errors"`
+}
+
+type ViolationRep struct {
+	Prop   string `json:"prop"`
+	Sig    string `json:"sig"`
+	Detail string `json:"detail"`
+	Replay string `json:"replay"`
+}
+
+func envInt(k string, def int) int {
+	if v := os.Getenv(k); v != "" {
+		if n, err := strconv.Atoi(v); err == nil {
+			return n
 		}
-		ops = append(ops, WOp{Kind: "nw", MT: 1, Pay: Payload{Len: 9000, Kind: "text", Seed: 3}, Chunks: []Chunk{{How: "w", N: 10}, {How: "s", N: 5000}, {How: "rf", N: 9000, RfChunk: 100}}, End: "close"})
-		ops = append(ops, WOp{Kind: "barrier", Lvl: 2})
-		return ops
 	}
-	cw := append(w(3), WOp{Kind: "ctl", MT: 8, Code: 1000, DlMs: 5000})
-	return &Scenario{Prop: "C01", Class: "smoke", Seed: seed,
-		Sched: SchedCfg{Personality: "uniform"},
-		Net:   NetCfg{DefCap: 4096},
-		Links: []Link{{
-			Client: &EndCfg{ReadBuf: 0, WriteBuf: 100, Compression: true},
-			Server: &EndCfg{ReadBuf: 64, WriteBuf: 0, Compression: true, Server: "mini"},
-			CTasks: []TaskCfg{{Kind: "writer", W: cw}, {Kind: "reader", R: []ROp{{Kind: "rm"}, {Kind: "nr", Sizes: []int{7, 300}}}}},
-			STasks: []TaskCfg{{Kind: "writer", W: w(2)}, {Kind: "reader", R: []ROp{{Kind: "nr", Sizes: []int{1, 4000}}}}},
-		}},
+	return def
+}
+
+func envU64(k string, def uint64) uint64 {
+	if v := os.Getenv(k); v != "" {
+		if n, err := strconv.ParseUint(v, 10, 64); err == nil {
+			return n
+		}
+		if n, err := strconv.ParseInt(v, 10, 64); err == nil {
+			return uint64(n)
+		}
+	}
+	return def
+}
+
+// scenarioFor regenerates the scenario of (base seed, property, worker, index).
+func scenarioFor(pd *PropDef, base uint64, worker, index int, tier string) *Scenario {
+	r := NewPRNG(Mix(base, pd.Num, uint64(worker), uint64(index)))
+	return pd.Gen(r, tier)
+}
+
+// judge runs a scenario and the property's oracle.
+func judge(t *testing.T, pd *PropDef, scn *Scenario, tape []int32) *Run {
+	run := Execute(t, scn, tape)
+	if run.Deadlock != "" && len(run.Findings) == 0 {
+		// handled by the oracle if the property cares; always recorded
+	}
+	pd.Oracle(run)
+	return run
+}
+
+func TestWorker(t *testing.T) {
+	mode := os.Getenv("WSIM_MODE")
+	if mode == "" {
+		t.Skip("WSIM_MODE not set")
+	}
+	pd := props[os.Getenv("WSIM_PROP")]
+	if pd == nil && mode != "replay" {
+		t.Fatalf("unknown property %q", os.Getenv("WSIM_PROP"))
+	}
+	switch mode {
+	case "explore":
+		workerExplore(t, pd)
+	case "replay":
+		workerReplay(t)
+	case "digest":
+		workerDigest(t, pd)
+	case "emit":
+		workerEmit(pd)
 	}
 }
 
-func TestSmoke(t *testing.T) {
-	for seed := uint64(1); seed <= 3; seed++ {
-		scn := smokeScenario(seed)
-		run := Execute(t, scn, nil)
-		fmt.Printf("seed %d reason=%s steps=%d leaked=%d deadlock=%q harness=%v panics=%v digest=%x tape=%d\n", seed, run.Reason, run.Stats.Steps, run.Leaked, run.Deadlock, run.Harness, run.Panics, run.Digest, len(run.Tape))
-		for _, tk := range run.Tasks {
-			fmt.Printf("  task %d %s ops=%d aborted=%v\n", tk.ID, tk.Name, len(tk.Hist), tk.Aborted)
-			for _, r := range tk.Hist {
-				fmt.Printf("     %s mt=%d n=%d len=%d err=%s %s [%d..%d]\n", r.Op, r.MsgType, r.N, len(r.Data), r.Err, r.Note, r.Invoke, r.Return)
+// workerEmit regenerates the scenario of a run that killed its worker and
+// writes it as a replay file (no tape: the run re-explores with the PRNG
+// derived from the scenario seed, which is deterministic).
+func workerEmit(pd *PropDef) {
+	scn := scenarioFor(pd, envU64("WSIM_SEED", 1), envInt("WSIM_WORKER", 0), envInt("WSIM_INDEX", 0), os.Getenv("WSIM_TIER"))
+	sig := os.Getenv("WSIM_SIG")
+	rp := &Replay{Property: pd.ID, Rule: sig, Signature: sig, Detail: os.Getenv("WSIM_DETAIL"), BaseSeed: envU64("WSIM_SEED", 1),
+		Worker: envInt("WSIM_WORKER", 0), Index: envInt("WSIM_INDEX", 0), Race: os.Getenv("WSIM_RACEFLAG") != "", Scenario: scn}
+	writeJSON(os.Getenv("WSIM_EMIT"), rp)
+}
+
+var heartbeat atomic.Int64
+
+// watchdog runs outside any bubble: if no run completes for two minutes of
+// wall time the worker reports a hang for the run named in its current file.
+func startWatchdog() {
+	heartbeat.Store(time.Now().UnixNano())
+	go func() {
+		for {
+			time.Sleep(2 * time.Second)
+			if time.Since(time.Unix(0, heartbeat.Load())) > 120*time.Second {
+				fmt.Println("WATCHDOG: no progress for 120 s of wall time")
+				buf := make([]byte, 1<<20)
+				n := runtime.Stack(buf, true)
+				os.Stdout.Write(buf[:n])
+				os.Exit(3)
 			}
 		}
-		run2 := Execute(t, scn, run.Tape)
-		if run2.Digest != run.Digest {
-			t.Fatalf("replay digest differs")
+	}()
+}
+
+func workerExplore(t *testing.T, pd *PropDef) {
+	base := envU64("WSIM_SEED", 1)
+	worker := envInt("WSIM_WORKER", 0)
+	secs := envInt("WSIM_SECONDS", 10)
+	maxRuns := envInt("WSIM_MAXRUNS", 1<<30)
+	tier := os.Getenv("WSIM_TIER")
+	out := os.Getenv("WSIM_OUT")
+	known := loadKnown(os.Getenv("WSIM_KNOWN"))
+	cur, _ := os.OpenFile(filepath.Join(out, fmt.Sprintf("current.%d", worker)), os.O_CREATE|os.O_WRONLY|os.O_TRUNC, 0o644)
+	rep := &WorkerReport{Prop: pd.ID, Worker: worker, Race: RaceBuild, Faults: map[string]uint64{}, Probes: map[string]uint64{},
+		Classes: map[string]int{}, Reasons: map[string]int{}, Discarded: map[string]int{}, Known: map[string]string{}}
+	digests := map[uint64]struct{}{}
+	start := time.Now()
+	deadline := start.Add(time.Duration(secs) * time.Second)
+	seenSig := map[string]bool{}
+	startWatchdog()
+	for j := 0; j < maxRuns; j++ {
+		heartbeat.Store(time.Now().UnixNano())
+		if j%8 == 0 && time.Now().After(deadline) {
+			break
 		}
-		run3 := Execute(t, scn, nil)
-		if run3.Digest != run.Digest {
-			t.Fatalf("rerun digest differs")
+		if cur != nil {
+			var b [64]byte
+			n := copy(b[:], fmt.Sprintf("%s %d %d %d %s\n", pd.ID, base, worker, j, tier))
+			cur.WriteAt(b[:n], 0)
+		}
+		scn := scenarioFor(pd, base, worker, j, tier)
+		run := judge(t, pd, scn, nil)
+		rep.Runs++
+		rep.Steps += run.Stats.Steps
+		rep.ChoicePts += run.Stats.ChoicePoint
+		rep.SimNanos += run.Stats.SimNanos
+		rep.Classes[scn.Class]++
+		rep.Reasons[run.Reason]++
+		for k, v := range run.Stats.Faults {
+			if v > 0 {
+				rep.Faults[faultNames[k]] += v
+			}
+		}
+		for k, v := range run.Stats.Probes {
+			if v > 0 {
+				rep.Probes[probeNames[k]] += v
+			}
+		}
+		if run.Obligations > 0 {
+			rep.Nontrivial++
+			rep.Obligations += run.Obligations
+			digests[run.Digest] = struct{}{}
+		}
+		if len(rep.Samples) < 3 && run.Obligations > 0 && j%3 == worker%3 {
+			rep.Samples = append(rep.Samples, sampleOf(scn, run))
+		}
+		stop := false
+		for _, f := range run.Findings {
+			if f.Prop == "HARNESS" {
+				if len(rep.HarnessErr) < 20 {
+					rep.HarnessErr = append(rep.HarnessErr, fmt.Sprintf("worker %d run %d: %s: %s", worker, j, f.Rule, f.Detail))
+				}
+				rep.Discarded["harness:"+f.Rule]++
+				continue
+			}
+			if f.Prop != pd.ID {
+				rep.Discarded["other-property:"+f.Prop+"/"+f.Rule]++
+				continue
+			}
+			if seenSig[f.Sig] {
+				continue
+			}
+			seenSig[f.Sig] = true
+			// minimise, then write the replay file
+			rp := minimise(t, pd, scn, run, f)
+			rp.BaseSeed, rp.Worker, rp.Index, rp.Race = base, worker, j, RaceBuild
+			path := filepath.Join(out, fmt.Sprintf("%s-w%d-r%d-%s.json", pd.ID, worker, j, sanitize(f.Rule)))
+			writeJSON(path, rp)
+			if what, ok := known.match(pd.ID, rp.Signature); ok {
+				rep.Known[rp.Signature] = what
+				continue
+			}
+			rep.Violations = append(rep.Violations, ViolationRep{Prop: pd.ID, Sig: rp.Signature, Detail: rp.Detail, Replay: path})
+			stop = true
+		}
+		if stop && len(rep.Violations) >= 3 {
+			break
 		}
 	}
-	b, _ := json.Marshal(smokeScenario(1))
-	fmt.Println(len(b))
+	rep.WallS = time.Since(start).Seconds()
+	// digests
+	db := make([]byte, 0, len(digests)*8)
+	for d := range digests {
+		db = binary.LittleEndian.AppendUint64(db, d)
+	}
+	os.WriteFile(filepath.Join(out, fmt.Sprintf("digests.%d.bin", worker)), db, 0o644)
+	writeJSON(filepath.Join(out, fmt.Sprintf("report.%d.json", worker)), rep)
+	_ = runtime.NumGoroutine
+}
+
+func sanitize(s string) string {
+	b := []byte(s)
+	for i, c := range b {
+		if !(c >= 'a' && c <= 'z' || c >= 'A' && c <= 'Z' || c >= '0' && c <= '9' || c == '-') {
+			b[i] = '_'
+		}
+	}
+	return string(b)
+}
+
+func writeJSON(path string, v interface{}) {
+	b, _ := json.MarshalIndent(v, "", " ")
+	os.WriteFile(path, b, 0o644)
+}
+
+func sampleOf(scn *Scenario, run *Run) json.RawMessage {
+	type smp struct {
+		Scenario *Scenario `json:"scenario"`
+		Reason   string    `json:"end"`
+		Steps    uint64    `json:"steps"`
+		SimMs    int64     `json:"sim_ms"`
+		Oblig    int       `json:"obligations_discharged"`
+		Findings int       `json:"findings"`
+	}
+	b, _ := json.Marshal(smp{scn, run.Reason, run.Stats.Steps, run.Stats.SimNanos / 1e6, run.Obligations, len(run.Findings)})
+	if len(b) > 6000 {
+		b, _ = json.Marshal(map[string]interface{}{"class": scn.Class, "seed": scn.Seed, "note": "scenario too large to inline", "links": len(scn.Links),
+			"end": run.Reason, "steps": run.Stats.Steps, "obligations_discharged": run.Obligations})
+	}
+	return b
+}
+
+// workerReplay re-executes a replay file; exit status 1 (test failure) iff the
+// recorded signature reproduces.
+func workerReplay(t *testing.T) {
+	b, err := os.ReadFile(os.Getenv("WSIM_REPLAY"))
+	if err != nil {
+		fmt.Println("REPLAY-ERROR", err)
+		os.Exit(2)
+	}
+	var rp Replay
+	if err := json.Unmarshal(b, &rp); err != nil {
+		fmt.Println("REPLAY-ERROR", err)
+		os.Exit(2)
+	}
+	pd := props[rp.Property]
+	if pd == nil {
+		fmt.Println("REPLAY-ERROR unknown property", rp.Property)
+		os.Exit(2)
+	}
+	startWatchdog()
+	run := judge(t, pd, rp.Scenario, rp.Tape)
+	found := false
+	for _, f := range run.Findings {
+		fmt.Printf("FINDING %s: %s\n", f.Sig, f.Detail)
+		if f.Sig == rp.Signature {
+			found = true
+		}
+	}
+	fmt.Printf("REPLAY steps=%d reason=%s digest=%x\n", run.Stats.Steps, run.Reason, run.Digest)
+	if os.Getenv("WSIM_VERBOSE") != "" {
+		dumpRun(run)
+	}
+	if found {
+		fmt.Printf("REPRODUCED %s\n", rp.Signature)
+	} else {
+		fmt.Printf("NOT-REPRODUCED %s\n", rp.Signature)
+	}
+}
+
+// workerDigest prints the digests of a fixed list of runs (determinism self-test).
+func workerDigest(t *testing.T, pd *PropDef) {
+	base := envU64("WSIM_SEED", 1)
+	n := envInt("WSIM_MAXRUNS", 50)
+	tier := os.Getenv("WSIM_TIER")
+	for j := 0; j < n; j++ {
+		scn := scenarioFor(pd, base, 0, j, tier)
+		run := judge(t, pd, scn, nil)
+		fmt.Printf("DIGEST %d %016x %d %d\n", j, run.Digest, run.Stats.Steps, len(run.Findings))
+	}
+}
+
+func dumpRun(run *Run) {
+	for _, tk := range run.Tasks {
+		fmt.Printf("  task %d %s ops=%d aborted=%v panic=%q\n", tk.ID, tk.Name, len(tk.Hist), tk.Aborted, tk.Panic)
+		for _, r := range tk.Hist {
+			fmt.Printf("     %s#%d mt=%d n=%d len=%d err=%s(%s) %s [step %d..%d t %d..%d]\n", r.Op, r.Idx, r.MsgType, r.N, len(r.Data), r.Err, r.ErrText, r.Note, r.Invoke, r.Return, r.TInvoke, r.TReturn)
+		}
+	}
+	for _, e := range run.Reals {
+		fmt.Printf("  end link=%d server=%v hs=%v neg=%v handlers=%d\n", e.Link, e.IsServer, e.HsErr, e.Negotiated, len(e.Handlers))
+		if e.Net != nil {
+			fmt.Printf("    tap(%d bytes after head)=%s\n", len(wsTap(e)), short(wsTap(e)))
+			for _, c := range e.Net.Calls() {
+				fmt.Printf("    call %c step=%d t=%d arg=%d n=%d err=%d fault=%d\n", c.Op, c.Step, c.T, c.Arg, c.N, c.Err, c.Fault)
+			}
+		}
+	}
 }
